@@ -13,6 +13,20 @@ CLAIMED = {
                 note='Trusted: z3, the AST rewrite (validated by running the repository suite under it), the SymTok model of Token dunder methods (validated each run), '
                      'the reference lexer with the conventions of DESIGN.md section 3, the read(1)/readline stub standing in for StringIO. Inputs longer than the bound are outside the claim.',
                 ref='DESIGN.md section 5 C01'),
+    'C03': dict(level='model_checking',
+                text='Bounded exhaustive over generated conditional skeletons (source text through the real tokenizer, expansion loop, test primitives and '
+                     'processIfContent): for every skeleton with <= 2 (thorough: 3, plus depth-4 chains) conditionals and for ALL operand values - count registers are '
+                     'unbounded z3 integers (so every \\ifcase selector value is covered), dimens reals, \\newif switches booleans - the processed text and the '
+                     'number of counter steps equal those of the branch TeX selects.',
+                note='Trusted: z3, AST rewrite, the recursive reference evaluator, floats-as-reals for \\ifdim. Operands are registers (normal form: no literal termination issue). '
+                     'Mode tests and \\ifcat/\\if/\\ifcsname are outside the generated heads.',
+                ref='DESIGN.md section 5 C03'),
+    'C19': dict(level='model_checking',
+                text='Bounded exhaustive over all expression trees of depth <= 2 (thorough: depth 3 with <= 5 atoms, depth-4 chains) written as LaTeX source: for every '
+                     'valuation of the atoms (booleans, symbolic digits and relation characters, symbolic \\equal letters) exactly the branch denoted by the expression '
+                     'is processed; \\whiledo iterates exactly bound times for every bound 0..6.',
+                note='Trusted: z3, AST rewrite, the direct recursive evaluator and its linearisation (binary right operands and binary \\not operands parenthesised).',
+                ref='DESIGN.md section 5 C19'),
 }
 
 NOT_YET = {}
